@@ -383,6 +383,28 @@ def run_impl(case):
 
 
 # ================================================================ the model side
+def ortho_noise(case):
+    """largest bound, over the steps k, on what rounding can add to |<cd', ck>_m / <cd', cd'>_m| (exact arithmetic)"""
+    rows = [[core.frac(float(x)) for x in r] for r in case["coord"]]
+    mass = [core.frac(float(x)) for x in case["mass"]]
+    fx, dim = case["fx"], int(case["dim"])
+    cd, worst = rows[dim], F(0)
+    for k in range(dim):
+        ck = rows[k]
+        num = sum((cd[i] * ck[i] * mass[i] for i in range(len(mass)) if not fx[i]), F(0))
+        den = sum((ck[i] * ck[i] * mass[i] for i in range(len(mass)) if not fx[i]), F(0))
+        if den == 0:
+            return worst
+        factor = num / den
+        mag = [abs(cd[i]) + abs(factor * ck[i]) for i in range(len(mass))]
+        cd = [cd[i] if fx[i] else cd[i] - factor * ck[i] for i in range(len(mass))]
+        norm = sum((mass[i] * cd[i] * cd[i] for i in range(len(mass))), F(0))
+        if norm == 0:
+            return None          # the orthogonalised row vanishes exactly: binary64 keeps an arbitrary residue
+        worst = max(worst, sum((mass[i] * abs(ck[i]) * mag[i] for i in range(len(mass))), F(0)) * F(2) ** -50 / norm)
+    return worst
+
+
 def gl(v):
     return glist([gq(float(x)) for x in v])
 
@@ -426,11 +448,23 @@ def to_coq(case, obs):
     k = case["kind"]
     if k == "normalize":
         return f"norm_ok {gq(THR)} 8 {gl(case['xs'])} {gl(case['spans'])} {gbools(case['fx'])} {gres_list(obs)}"
+    if k == "ortho" and ortho_noise(case) is None:
+        # exact norm 0: the model raises ZeroDivisionError; what the implementation does is decided by the 1e-16
+        # residue that survives in binary64 (division error, assertion, or a row of residues): not compared
+        coord = glist([gl(r) for r in case["coord"]])
+        return (f"match orthogonalize {gq(ATOL)} {coord} {gl(case['mass'])} {gnat(int(case['dim']))} "
+                f"{gbools(case['fx'])} with ZeroDiv => true | _ => false end")
+    if k == "ortho" and obs.get("raised") == "AssertFail" and ortho_noise(case) >= core.frac(ATOL) / 4:
+        # ill-conditioned: the orthogonalised row is so small that binary64 rounding alone lifts the normalised
+        # dot product (exactly 0 or tiny) above 10e-12; the exact model may pass the assertion
+        coord = glist([gl(r) for r in case["coord"]])
+        return (f"match orthogonalize {gq(ATOL)} {coord} {gl(case['mass'])} {gnat(int(case['dim']))} "
+                f"{gbools(case['fx'])} with EmptyMin => false | _ => true end")
     if k == "ortho":
         scale = max([1.0] + [abs(float(x)) for r in case["coord"] for x in r]) ** 2
         tol = gq(F(1, 10 ** 11) * core.frac(scale))
         coord = glist([gl(r) for r in case["coord"]])
-        return (f"res_cmp (list_eqb (aclose {tol})) (orthogonalize {gq(ATOL)} {coord} {gl(case['mass'])} "
+        return (f"ortho_cmp {tol} (orthogonalize {gq(ATOL)} {coord} {gl(case['mass'])} "
                 f"{gnat(int(case['dim']))} {gbools(case['fx'])}) {gres_list(obs)} && {gbool(obs['others_unchanged'])}")
     if k == "centroids":
         # 0.5 * (coord[i] + centre) can cancel: absolute tolerance at the magnitude of the coordinates
@@ -463,8 +497,19 @@ def to_coq(case, obs):
         nf = gnat(int(case["nf"]))
         ntr = max(1, int(case["nf"]))
         complete = len(obs["trials"]) == ntr and all(t["ret"] is not None for t in obs["trials"])
+        for t in obs["trials"]:
+            if t["ret"] is not None:        # the wire length the selection is based on
+                wtol = gq(F(1, 10 ** 9) * core.frac(max(1.0, abs(t["wl"]))))
+                parts.append(f"aclose {wtol} (wirelength {adj} [{gl(t['ret'][0])}; {gl(t['ret'][1])}]) {gq(t['wl'])}")
         if "ok" in obs:
             out = glist([gsmod(m, W, H) for m in obs["after"]["mods"]])
+            wls = [t["wl"] for t in obs["trials"]]
+            srt = sorted(wls)
+            if len(srt) >= 2 and srt[1] - srt[0] <= 1e-9 * max(1.0, srt[0]):
+                # two trials with the same wire length up to rounding (mirrored solutions): which one wins is decided
+                # by the last bit; replay the selected trial alone
+                j = wls.index(srt[0])
+                trs, nf = glist([gtrial(obs["trials"][j])]), gnat(1)
             parts.append(f"layout_ok {gq(THR)} {tol} {W} {H} {nf} {ms} {adj} {trs} {out}")
             parts.append(gbool(all(len(t["dims"]) == 2 and t["dims"][0]["last_out"] == t["ret"][0]
                                    and t["dims"][1]["last_out"] == t["ret"][1] for t in obs["trials"])))
@@ -609,8 +654,8 @@ def nontrivial(case):
 def run(ctx, out, replay=None):
     quick = ctx.quick()
     nk = 1500 if quick else 30000
-    nd = 20 if quick else 300
-    nl = 60 if quick else 1200
+    nd = 20 if quick else 150
+    nl = 60 if quick else 700
     out.rule = ("kernels on dyadic vectors (normalize: entries k/8, zeros, entries at and around the 10e-10 threshold, "
                 "spans k/4 incl. 0, fixed flags; orthogonalize: 2-4 rows incl. the all-ones row, masses zero on fixed "
                 "nodes or not, parallel rows; centroids/dot/wirelength on random weighted graphs incl. isolated nodes "
